@@ -88,6 +88,10 @@ pub struct Case {
     /// `x 45 seconds as minutes`): a duration is a duration, however it got there
     #[serde(default)]
     pub via_var: bool,
+    /// set_number_configuration(digits, remove_fract_if_zero, use_fract_rounding): the counts of a printed duration are
+    /// whole numbers, the number format has no say in how they are written
+    #[serde(default)]
+    pub num: Option<(u8, bool, bool)>,
 }
 
 pub const CONV_WORDS: [&str; 4] = ["as", "to", "in", "into"];
@@ -191,9 +195,9 @@ impl Prop for Durations {
         "durations"
     }
     fn check(&self, w: &mut Worker, c: &Case) -> Verdict {
-        let cfg = Cfg::default();
+        let cfg = Cfg { num: c.num, ..Cfg::default() };
         let line = case_line(c).render(",", ".");
-        let rendered = format!("[{}] {}", c.lang, line);
+        let rendered = if c.num.is_some() { format!("[{} number format {:?}] {}", c.lang, c.num.unwrap(), line) } else { format!("[{}] {}", c.lang, line) };
         let exp = expected_seconds(c);
         let slot = match w.eval1(&cfg, &c.lang, &line) {
             Ok(s) => s,
@@ -255,6 +259,7 @@ impl Prop for Durations {
         acc.finish(rendered)
             .nt((n_parts >= 2 && units.len() >= 2) || carry || inexact_conv)
             .class_if(c.lang == "tr", "lang:tr")
+            .class_if(c.num.is_some(), "number-format-set")
             .class_if(c.conv.is_some(), "as-conversion")
             .class_if(inexact_conv, "as-conversion-floors")
             .class_if(c.plus.iter().any(|p| !*p), "has-subtraction")
@@ -277,8 +282,9 @@ pub fn part_strategy() -> impl Strategy<Value = Part> {
 }
 
 pub fn case_strategy() -> impl Strategy<Value = Case> {
-    (case_strategy_literal(), prop::bool::weighted(0.3)).prop_map(|(mut c, v)| {
+    (case_strategy_literal(), prop::bool::weighted(0.3), prop_oneof![4 => Just(None), 1 => (0u8..=6, any::<bool>(), any::<bool>()).prop_map(Some)]).prop_map(|(mut c, v, num)| {
         c.via_var = v;
+        c.num = num;
         c
     })
 }
@@ -305,7 +311,7 @@ fn case_strategy_literal() -> impl Strategy<Value = Case> {
             groups.truncate(1);
         }
         let plus = plus.into_iter().take(groups.len().saturating_sub(1)).collect();
-        Case { lang, groups, plus, conv, via_var: false }
+        Case { lang, groups, plus, conv, via_var: false, num: None }
     })
 }
 
@@ -317,10 +323,10 @@ pub fn table() -> Vec<Case> {
             for sp in 0..spellings(lang, unit).len() as u8 {
                 for count in counts {
                     let part = Part { count, unit, spelling: sp, group: false };
-                    out.push(Case { lang: lang.into(), groups: vec![vec![part.clone()]], plus: vec![], conv: None, via_var: false });
+                    out.push(Case { lang: lang.into(), groups: vec![vec![part.clone()]], plus: vec![], conv: None, via_var: false, num: None });
                     if lang == "en" {
                         for target in 0..5u8 {
-                            out.push(Case { lang: lang.into(), groups: vec![vec![part.clone()]], plus: vec![], conv: Some(((count % 4) as u8, target, (count % 2) as u8)), via_var: count % 3 == 0 });
+                            out.push(Case { lang: lang.into(), groups: vec![vec![part.clone()]], plus: vec![], conv: Some(((count % 4) as u8, target, (count % 2) as u8)), via_var: count % 3 == 0, num: None });
                         }
                     }
                 }
@@ -406,19 +412,90 @@ pub fn twoconv_strategy() -> impl Strategy<Value = TwoConv> {
     (group(), 0u8..5, prop::option::weighted(0.7, (any::<bool>(), group(), 0u8..5)), 0u8..5, 0u8..4, prop::bool::weighted(0.3)).prop_map(|(g1, u1, second, u2, conn, via_var)| TwoConv { g1, u1, second, u2, conn, via_var })
 }
 
+// ---- durations held in names, written side by side --------------------------------------------------------
+
+/// `a b c [as unit]` where a, b, c are names bound to durations on earlier lines: the sum of the durations (floored to
+/// the unit when converted), for two to five names
+#[derive(Clone, Debug, Serialize, Deserialize)]
+pub struct NamesRow {
+    pub groups: Vec<Vec<Part>>,
+    pub conv: Option<(u8, u8)>,
+}
+
+pub struct NamesInARow;
+
+impl Prop for NamesInARow {
+    type Case = NamesRow;
+    fn name(&self) -> &'static str {
+        "duration-names-in-a-row"
+    }
+    fn check(&self, w: &mut Worker, c: &NamesRow) -> Verdict {
+        const NAMES: [&str; 5] = ["leg one", "stop", "leg two", "wait", "return trip"];
+        let cfg = Cfg::default();
+        let words = |g: &Vec<Part>| -> String { g.iter().flat_map(|p| p.toks("en")).map(|t| t.text(",", ".")).collect::<Vec<_>>().join(" ") };
+        let mut lines: Vec<String> = c.groups.iter().enumerate().map(|(i, g)| format!("{} = {}", NAMES[i % 5], words(g))).collect();
+        let mut last = (0..c.groups.len()).map(|i| NAMES[i % 5]).collect::<Vec<_>>().join(" ");
+        let mut exp: i64 = c.groups.iter().flatten().map(|p| p.seconds()).sum();
+        if let Some((conn, unit)) = c.conv {
+            last.push_str(&format!(" {} {}", CONV_WORDS[conn as usize % 4], spellings("en", unit)[0]));
+            exp = floor_to(exp, unit);
+        }
+        lines.push(last);
+        let text = lines.join("\n");
+        let rendered = text.replace('\n', " ; ");
+        let out = match w.eval(&cfg, "en", &text) {
+            Ok(o) => o,
+            Err(p) => return Verdict::fail(format!("panic at {}: {}", p.site, p.message), rendered),
+        };
+        let mut acc = Acc::new();
+        match out.slots.last() {
+            Some(Slot::Ok { v: V::Dur(secs, 0), .. }) if *secs == exp => {}
+            other => {
+                // F152: with three or more names the conversion is applied to the last name alone
+                let kf = match (other, c.conv) {
+                    (Some(Slot::Ok { v: V::Dur(secs, 0), .. }), Some((_, unit))) if c.groups.len() >= 3 => {
+                        let last: i64 = c.groups.last().unwrap().iter().map(|p| p.seconds()).sum();
+                        let rest: i64 = c.groups[..c.groups.len() - 1].iter().flatten().map(|p| p.seconds()).sum();
+                        if *secs == rest + floor_to(last, unit) {
+                            Some("F152")
+                        } else {
+                            None
+                        }
+                    }
+                    _ => None,
+                };
+                acc.fail_kf(format!("expected Duration({} s) got {:?}", exp, other.map(|s| s.brief())), kf)
+            }
+        }
+        acc.finish(rendered).nt(true).class("duration-names-in-a-row").class_if(c.groups.len() % 2 == 1, "odd-number-of-names").class_if(c.conv.is_some(), "followed-by-a-conversion")
+    }
+}
+
+pub fn namesrow_strategy() -> impl Strategy<Value = NamesRow> {
+    let group = || prop::collection::vec((1u32..=400, 0u8..5), 1..=2).prop_map(|v| {
+        let mut v: Vec<Part> = v.into_iter().map(|(count, unit)| Part { count, unit, spelling: 0, group: false }).collect();
+        v.sort_by(|a, b| b.unit.cmp(&a.unit));
+        v.dedup_by_key(|p| p.unit);
+        v
+    });
+    (prop::collection::vec(group(), 2..=5), prop::option::weighted(0.6, (0u8..4, 0u8..5))).prop_map(|(groups, conv)| NamesRow { groups, conv })
+}
+
 pub fn run(ctx: &Ctx) {
-    ctx.rule("generated: 1-3 groups of 1-4 juxtaposed '(count unit)' parts (<= 7 parts), groups joined by + or -, counts 0..10^6 biased to carry boundaries (59/60/61, 23/24/25, 6/7/8, 29/30/31, 364/365/366, 11/12/13), every unit spelling of en and tr, optional 'as|to|in|into seconds|minutes|hours|days|weeks' (en); exhaustive table unit x spelling x boundary count x target; the first part - or only its count - also held in a name bound on an earlier line; several conversions on one line ('G1 as u1 +- G2 as u2', 'G as u1 as u2', sources also held in names: every conversion floors the duration it stands next to); oracle: hard-coded unit lengths (60, 3600, 86400, 7 d, 30 d, 365 d, N months = 365*(N div 12)+30*(N mod 12) days), exact integer seconds; printed form parsed back with the language's own words: singular iff count = 1, strictly descending units, parts sum to the magnitude and equal the greedy decomposition; 'as' = floor(|D|/len)*len; non-trivial = >= 2 parts of different units, or a carry-boundary count, or an inexact 'as' quotient");
+    ctx.rule("generated: 1-3 groups of 1-4 juxtaposed '(count unit)' parts (<= 7 parts), groups joined by + or -, counts 0..10^6 biased to carry boundaries (59/60/61, 23/24/25, 6/7/8, 29/30/31, 364/365/366, 11/12/13), every unit spelling of en and tr, optional 'as|to|in|into seconds|minutes|hours|days|weeks' (en); exhaustive table unit x spelling x boundary count x target; the first part - or only its count - also held in a name bound on an earlier line; a fifth of the cases under a random number format (the counts of a printed duration are whole numbers whatever it says); two to five names bound to durations written side by side, optionally followed by 'as unit'; several conversions on one line ('G1 as u1 +- G2 as u2', 'G as u1 as u2', sources also held in names: every conversion floors the duration it stands next to); oracle: hard-coded unit lengths (60, 3600, 86400, 7 d, 30 d, 365 d, N months = 365*(N div 12)+30*(N mod 12) days), exact integer seconds; printed form parsed back with the language's own words: singular iff count = 1, strictly descending units, parts sum to the magnitude and equal the greedy decomposition; 'as' = floor(|D|/len)*len; non-trivial = >= 2 parts of different units, or a carry-boundary count, or an inexact 'as' quotient");
     ctx.assume("a zero duration prints the empty string (the sum of no parts); negative results print their magnitude; 'as months|years' is outside the statement");
     ctx.run_table(&Durations, "boundary-grid", table(), true);
     ctx.run_generated(&Durations, ctx.tier.pick(150_000, 1_500_000), case_strategy);
     // several conversions on one line: each floors the duration it stands next to
     ctx.run_generated(&Conversions, ctx.tier.pick(15_000, 150_000), twoconv_strategy);
+    ctx.run_generated(&NamesInARow, ctx.tier.pick(10_000, 100_000), namesrow_strategy);
 }
 
 pub fn replay(w: &mut Worker, sub: &str, case: &serde_json::Value) -> Option<Verdict> {
     match sub {
         "durations" => crate::engine::replay_case(&Durations, w, case),
         "several-conversions" => crate::engine::replay_case(&Conversions, w, case),
+        "duration-names-in-a-row" => crate::engine::replay_case(&NamesInARow, w, case),
         _ => None,
     }
 }
